@@ -23,7 +23,7 @@ checks["C01"] = {
  "assumptions": BLOCK_ASSUME, "outside": OUT}
 checks["C03"] = {
  "level": "model_checking",
- "jobs": [job("Verif_C03_Linear", [0, 3, 4, 5, 7], [0, 1, 2, 3, 4, 5, 6, 7]), job("Verif_C03_TLSF", [0, 1, 20], [0, 1, 2, 10, 11, 20, 21])],
+ "jobs": [job("Verif_C03_Linear", [0, 4, 5, 7], [0, 1, 2, 3, 4, 5, 6, 7]), job("Verif_C03_TLSF", [0, 1, 20], [0, 1, 2, 10, 11, 20, 21])],
  "bounds_quick": LIN_Q + " and the compaction family with an upper stack + 1 operation; " + TLSF_Q.replace("256 and 320", "256") + ". After every operation: tiling of the enumerated regions, allocation count, free bytes, emptiness flag, Statistics, DetailedStatistics (min/max, unused ranges) against the harness' own live set, and Validate()==nil (Validate is executed symbolically as code under test).",
  "bounds_thorough": "as quick with 4 operations, all linear recipes, TLSF blocks 256/320 and recipe T(n<=4,F,pi)",
  "assumptions": BLOCK_ASSUME, "outside": OUT}
@@ -63,6 +63,25 @@ checks["C18"] = {
  "bounds_quick": LIN_Q + "; " + TLSF_Q.replace("256 and 320", "256") + "; TLSF: no two adjacent free ranges after every operation; then everything is freed (either order) or the block is cleared, and the block is compared with a freshly initialised one: observables, internal state modulo documented symmetries, and 2 further symbolic requests answered in lock-step",
  "bounds_thorough": "4 operations, linear recipes, TLSF 320 bytes and recipe",
  "assumptions": BLOCK_ASSUME, "outside": OUT}
+
+DF = {"module": "memutils", "pkg": "defrag"}
+def djob(entry, q, t):
+    d = dict(DF); d.update({"entry": entry, "cfgs_quick": q, "cfgs_thorough": t}); return d
+DEFRAG_ASSUME = ["BlockList and move handler written in the harness from the documentation of defrag.BlockList / DefragmentationMove (mirrors vam's use)", "TLSF blocks of 256 bytes, granularity 1", "default build"]
+DEFRAG_B = "real MetadataDefragContext over an in-harness BlockList of real TLSF blocks (256 bytes each): layouts 1 block x 3 allocations, 2 blocks x (2,1), 3 blocks x (1,1,1), symbolic sizes, one allocation freed (any); both algorithms; up to 2 passes; per pass one symbolic-free decision copy/ignore/destroy applied to all moves"
+checks["C07"] = {
+ "level": "model_checking",
+ "jobs": [djob("Verif_Defrag_Run", [0, 1, 2, 3, 4, 5], list(range(12)))],
+ "bounds_quick": DEFRAG_B + ". memutils layer only (the vam layer is checked by the vam harnesses).",
+ "bounds_thorough": "layouts 1x4, 2x(3,2), 3x(2,2,2) with 0-3 frees and one symbolic alignment, 3 passes, an independent decision per move, with and without symbolic per-pass limits",
+ "assumptions": DEFRAG_ASSUME, "outside": "more blocks/allocations/passes than stated; granularity handlers; the vam consumer"}
+checks["C15"] = {
+ "level": "model_checking",
+ "jobs": [djob("Verif_Defrag_Run", [6, 7, 8, 9, 10, 11], list(range(12))), djob("Verif_Defrag_Reuse", [0, 1], [0, 1])],
+ "bounds_quick": DEFRAG_B + "; per-pass byte limit symbolic in [1,1024] and allocation limit symbolic in [1,8]; reuse: a context that completed a run with an ignored move on another block list vs. a fresh context on an identical 2-block state (symbolic sizes)",
+ "bounds_thorough": "as C07 thorough",
+ "assumptions": DEFRAG_ASSUME + ["termination is not decided: every explored run either ends with an empty pass within the pass bound or is cut at the bound (reach label pass-bound-reached); forward progress per move is what is asserted"],
+ "outside": "termination for larger shapes; limits of 0 (vam replaces 0 by MaxInt before calling memutils)"}
 
 json.dump(checks, open("/verif/checks.json", "w"), indent=1)
 print("wrote", len(checks), "checks")
